@@ -71,6 +71,10 @@ pub struct Plan {
     /// masks instead (hook H1c), so that the members of one class do not all report the same interests
     #[serde(default)]
     pub odd: Option<Mask>,
+    /// non-zero: the first class of the stream is also read by a caller-written visitor chain that reads another class
+    /// of the stream from inside every `reentrant`-th callback (module `reentrant`)
+    #[serde(default)]
+    pub reentrant: u8,
 }
 
 fn b(m: u32, i: u32) -> bool {
@@ -457,7 +461,8 @@ impl Engine for C17 {
         } else {
             None
         };
-        Plan { classes, visitor, mask, declined, io, accept, odd }
+        let reentrant = { let mut re = rng.split("reentrant"); if re.chance(6) { 1 + re.below(9) as u8 } else { 0 } };
+        Plan { classes, visitor, mask, declined, io, accept, odd, reentrant }
     }
 
     fn exec(&self, p: &Plan, st: &mut RunStats) -> Vec<Violation> {
@@ -658,6 +663,37 @@ impl Engine for C17 {
                                 let sub = Prepared { stream: vec![], ends: vec![], full: vec![prep.full[ci].clone()], trees: vec![] };
                                 judge_tree("T0", "accept", 0, &t, &sub, &one, &mut out, &mut obs);
                             }
+                        }
+                    }
+                }
+            }
+        }
+        // ---------------- a visitor that reads another class from inside its callbacks
+        if p.reentrant != 0 && !prep.ends.is_empty() {
+            st.probe("reentrant_visitor");
+            st.nontrivial = true;
+            st.sched.u64(0x4EE ^ p.reentrant as u64);
+            let first = prep.stream[..prep.ends[0] as usize].to_vec();
+            let lib_i = if prep.ends.len() > 1 { 1 } else { 0 };
+            let lib = prep.stream[if lib_i == 0 { 0 } else { prep.ends[0] as usize }..prep.ends[lib_i] as usize].to_vec();
+            let want_insns: usize = prep.trees[0].methods.iter().filter_map(|m| m.code.as_ref()).map(|c| c.instructions.len()).sum();
+            let loader = crate::reentrant::Loader::new(lib, p.reentrant as usize, 4);
+            match no_panic(|| duke::read_class_multi(&mut Cursor::new(&first), loader)) {
+                Err(pm) => out.push(Violation::new("T0", "panic", format!("reentrant-read:{}", panic_path(&pm)), pm)),
+                Ok(Err(e)) => out.push(Violation::new("T0", "refused-wellformed", "reentrant-read.result", format!("a class the full read accepts is refused when the visitor reads another class from inside its callbacks: {e:#}"))),
+                Ok(Ok(l)) => {
+                    if l.seen.instructions != want_insns {
+                        out.push(Violation::new("T0", "semantic-mismatch", "reentrant-read.instructions", format!("{} instructions delivered, the full read has {want_insns}", l.seen.instructions)));
+                    }
+                    if !l.seen.nested.is_empty() {
+                        st.probe("reentrant_nested_reads");
+                    }
+                    for r in &l.seen.nested {
+                        match r {
+                            // compared through the projection (floats by bit pattern: a NaN constant is not `==` itself)
+                            Ok(t) if project(t).ok().as_ref() == Some(&prep.full[lib_i]) => {}
+                            Ok(_) => out.push(Violation::new("T0", "semantic-mismatch", "reentrant-read.nested", "the class read from inside a callback differs from the same class read on its own".to_string())),
+                            Err(e) => out.push(Violation::new("T0", "refused-wellformed", "reentrant-read.nested.result", format!("the nested read of a class the full read accepts fails: {e}"))),
                         }
                     }
                 }
